@@ -76,6 +76,19 @@ func (pipeline *FullSyncPipeline) sync(job *job, ctx context.Context) (int, erro
 		return 0, err
 	}
 	syncJobState.ContinuationToken = ""
+	// A full sync replays the source from its beginning, so until it has completed the sink may hold OLDER
+	// versions than before. The position of earlier incremental runs says nothing about such a sink: forget it
+	// now, so that whatever ends this run (sink failure, kill, process death) the next run starts from the
+	// beginning and restores the sink. On success the new position is stored below.
+	storesState := pipeline.sink.GetConfig()["Type"] != "HttpDatasetSink" ||
+		(isDatasetSource && dss.LatestOnly) ||
+		pipeline.source.GetConfig()["Type"] == "MultiSource"
+	if storesState {
+		err = runner.store.StoreObject(server.JobDataIndex, job.id, syncJobState)
+		if err != nil {
+			return 0, err
+		}
+	}
 	entCnt := 0
 	tags := []string{"application:datahub", "job:" + job.title}
 	for keepReading {
@@ -166,9 +179,7 @@ func (pipeline *FullSyncPipeline) sync(job *job, ctx context.Context) (int, erro
 	//Exception is when used with MultiSource... MultiSource only operates on changes. also in fullsync mode.
 	//   Difference there between fullsync and incremental is whether dependencies are processed
 	//Other exception is when the source is LatestOnly. In that case we can use the changes collection to produce entities
-	if pipeline.sink.GetConfig()["Type"] != "HttpDatasetSink" ||
-		(isDatasetSource && dss.LatestOnly) ||
-		pipeline.source.GetConfig()["Type"] == "MultiSource" {
+	if storesState {
 		verifhook.Point("pipeline.fullsync.ended", job.id)
 		err = runner.store.StoreObject(server.JobDataIndex, job.id, syncJobState)
 		if err != nil {
